@@ -426,6 +426,16 @@ class OrderedMultiDict(dict):
             super().__delitem__(k)
         return v
 
+    def popitem(self):
+        """Remove the most-recently inserted key, returning it together
+        with its most-recently inserted value, like :meth:`pop`. Raises
+        :exc:`KeyError` if the dictionary is empty.
+        """
+        if not self:
+            raise KeyError('popitem(): %s is empty' % self.__class__.__name__)
+        k = self.root[PREV][KEY]
+        return k, self.pop(k)
+
     def _remove(self, k):
         values = self._map[k]
         cell = values.pop()
